@@ -527,7 +527,18 @@ pub fn enumerate_faults(r: &mut Rng, b: &Base, tier: Tier, want_all_truncations:
         let rem = (len - sp.end) as i64;
         match sp.kind {
             SpanKind::Len | SpanKind::Count | SpanKind::CollHdr => {
-                let vals: [i64; 12] = [-1, 0, 1, rem - 1, rem, rem + 1, 1 << 16, 1 << 24, i32::MAX as i64, u32::MAX as i64, i32::MIN as i64, (rem / 2).max(2)];
+                let mut vals: Vec<i64> = vec![-1, 0, 1, rem - 1, rem, rem + 1, 1 << 16, 1 << 24, i32::MAX as i64, u32::MAX as i64, i32::MIN as i64, (rem / 2).max(2)];
+                // values just inside the ends of the range and around powers of two (size arithmetic: n * width, n + k)
+                const NEAR: [i64; 16] = [
+                    i32::MAX as i64 - 1, i32::MAX as i64 - 7, i32::MAX as i64 - 15, (1 << 27) - 1, 1 << 27, (1 << 27) + 1, 1 << 28, (1 << 28) + 1, 1 << 29, 1 << 30, (1u32 << 31) as i64 + 1,
+                    255, 256, 4096, 65535, 65536,
+                ];
+                if tier == Tier::Thorough {
+                    vals.extend_from_slice(&NEAR);
+                } else {
+                    vals.push(*r.pick(&NEAR));
+                    vals.push(*r.pick(&NEAR));
+                }
                 for val in vals {
                     let kind = if sp.kind == SpanKind::Len { "len_overwrite" } else { "count_overwrite" };
                     v.push(Faulted {
@@ -539,6 +550,16 @@ pub fn enumerate_faults(r: &mut Rng, b: &Base, tier: Tier, want_all_truncations:
                 }
             }
             SpanKind::Type | SpanKind::FieldHdr => {
+                if is_pb {
+                    // the whole key replaced: field number 0, the largest field number, keys beyond 32 bits
+                    for (kv, what) in [(0u64, "tag0"), (7, "tag0wt7"), (((1u64 << 29) - 1) << 3 | 2, "tagmax"), (u32::MAX as u64, "u32max"), (1u64 << 32, "over32"), (u64::MAX, "u64max")] {
+                        let mut x = Vec::with_capacity(len + 10);
+                        x.extend_from_slice(&b.bytes[..sp.start]);
+                        put_uvarint(&mut x, kv);
+                        x.extend_from_slice(&b.bytes[sp.end..]);
+                        v.push(Faulted { bytes: x, desc: format!("key@{}={}", sp.start, what), kind: "key_overwrite", strict_prefix: false });
+                    }
+                }
                 let codes: Vec<u8> = if is_pb {
                     (0u8..8).collect()
                 } else if tier == Tier::Thorough {
